@@ -2,15 +2,15 @@ use std::{
     cmp::Ordering,
     fmt::{self, Display, Formatter},
     hash::{Hash, Hasher},
-    str::FromStr,
 };
 
-use proc_macro2::Span;
+use proc_macro2::{Span, TokenStream};
 use quote::ToTokens;
 use syn::{spanned::Spanned, Path, Type};
 
+// the string is the key; the tokens are what gets emitted (a string cannot carry the invisible groups of macro fragments)
 #[derive(Debug, Clone)]
-pub(crate) struct HashType(String, Span);
+pub(crate) struct HashType(String, Span, TokenStream);
 
 impl PartialEq for HashType {
     #[inline]
@@ -59,7 +59,9 @@ impl From<Type> for HashType {
 impl From<&Type> for HashType {
     #[inline]
     fn from(value: &Type) -> Self {
-        Self(value.into_token_stream().to_string(), value.span())
+        let token_stream = value.into_token_stream();
+
+        Self(token_stream.to_string(), value.span(), token_stream)
     }
 }
 
@@ -73,7 +75,9 @@ impl From<Path> for HashType {
 impl From<&Path> for HashType {
     #[inline]
     fn from(value: &Path) -> Self {
-        Self(value.into_token_stream().to_string(), value.span())
+        let token_stream = value.into_token_stream();
+
+        Self(token_stream.to_string(), value.span(), token_stream)
     }
 }
 
@@ -93,8 +97,6 @@ impl HashType {
 impl ToTokens for HashType {
     #[inline]
     fn to_tokens(&self, token_stream: &mut proc_macro2::TokenStream) {
-        let ty = proc_macro2::TokenStream::from_str(self.0.as_str()).unwrap();
-
-        token_stream.extend(ty);
+        token_stream.extend(self.2.clone());
     }
 }
